@@ -1,7 +1,7 @@
 """C11 - the built-in cryptographic primitives equal their standards (driver)."""
 from vlib import runner
 from vlib.runner import Ob
-from harness import c11_des
+from harness import c11_des, c11_misc as M
 
 PROP = "C11"
 
@@ -13,9 +13,63 @@ def run(tier, seed, t0, only=None):
            Ob("des-round[salt=0]", c11_des.ob_des_round, {"salted": False}, timeout=1800),
            Ob("des-round[salt symbolic]", c11_des.ob_des_round, {"salted": True}, timeout=3000),
            Ob("des-loop", c11_des.ob_des_loop, timeout=300),
-           Ob("des-keys", c11_des.ob_des_keys, timeout=600)]
+           Ob("des-keys", c11_des.ob_des_keys, timeout=600),
+           Ob("salsa20", M.ob_salsa, timeout=900),
+           Ob("md4-process", M.ob_md4_process, timeout=900)]
+    lens = list(range(0, 131)) if tier == "quick" else list(range(0, 301))
+    for i in range(0, len(lens), 12):
+        obs.append(Ob("md4-framing#%d" % (i // 12), M.ob_md4_framing, {"lengths": lens[i:i + 12]}, timeout=1800))
+    obs += [Ob("blowfish-encipher[base]", M.ob_bf_encipher, {"which": "base"}, timeout=900),
+            Ob("blowfish-encipher[unrolled]", M.ob_bf_encipher, {"which": "unrolled"}, timeout=900),
+            Ob("blowfish-constants", M.ob_bf_constants, timeout=300),
+            Ob("blowfish-expand", M.ob_bf_expand, {"which": "expand"}, timeout=900),
+            Ob("blowfish-eks-salted-expand", M.ob_bf_expand, {"which": "eks"}, timeout=900),
+            Ob("blowfish-key-to-words", M.ob_bf_key_to_words, timeout=600),
+            Ob("bcrypt-glue", M.ob_bcrypt_glue, timeout=300)]
+    for r in (1, 2, 3):
+        obs.append(Ob("scrypt-bmix[r=%d]" % r, M.ob_scrypt_bmix, {"r": r}, timeout=600))
+    for N, r in ([(2, 1), (4, 1), (4, 2), (8, 1)] if tier == "quick" else [(2, 1), (2, 2), (4, 1), (4, 2), (8, 1), (8, 2), (16, 1)]):
+        obs.append(Ob("scrypt-smix[N=%d,r=%d]" % (N, r), M.ob_scrypt_smix, {"N": N, "r": r}, timeout=1800))
+    for p_, r in ((1, 1), (2, 1), (3, 2)):
+        obs.append(Ob("scrypt-run[p=%d,r=%d]" % (p_, r), M.ob_scrypt_run, {"p_": p_, "r": r}, timeout=300))
+    obs.append(Ob("scrypt-validate", M.ob_scrypt_validate, timeout=900))
+    for alg, bs in (("md5", 64), ("sha1", 64), ("sha256", 64), ("sha512", 128)):
+        for klen in (0, 1, bs - 1, bs, bs + 1, 2 * bs):
+            for mlen in (0, 8, 65):
+                obs.append(Ob("hmac[%s,key=%d,msg=%d]" % (alg, klen, mlen), M.ob_hmac,
+                              {"alg": alg, "klen": klen, "mlen": mlen, "multipart": False}, timeout=600))
+            obs.append(Ob("hmac-multipart[%s,key=%d]" % (alg, klen), M.ob_hmac,
+                          {"alg": alg, "klen": klen, "mlen": 10, "multipart": True}, timeout=600))
+        for rounds in (1, 2, 3, 4):
+            for keylen in (None, 0, 1, -1, 999):
+                obs.append(Ob("pbkdf1[%s,rounds=%d,keylen=%r]" % (alg, rounds, keylen), M.ob_pbkdf1,
+                              {"alg": alg, "rounds": rounds, "plen": 5, "slen": 8, "keylen": keylen}, timeout=300))
+    obs.append(Ob("pbkdf2-forwarding", M.ob_pbkdf2_forward, timeout=120))
     if only:
         obs = [o for o in obs if only in o.name]
     results = runner.run_obligations(obs)
-    return runner.finish(PROP, tier, seed, "translation_validation", results, t0=t0, functions=[], bounds="", stubs=[],
-                         assumptions=[], outside=[], explanation="wip", technique="E1")
+    return runner.finish(
+        PROP, tier, seed, "translation_validation", results, t0=t0,
+        functions=["passlib.crypto.des.des_encrypt_int_block (prologue / double-round body / loop / epilogue, sliced from the current "
+                   "source)", "des_encrypt_block, expand_des_key, shrink_des_key", "passlib.crypto.scrypt._salsa.salsa20",
+                   "passlib.crypto._md4.md4._process/update/digest/copy",
+                   "_blowfish.base.BlowfishEngine.encipher/expand/eks_salted_expand/key_to_words + initial P/S",
+                   "_blowfish.unrolled.BlowfishEngine.encipher", "_blowfish.raw_bcrypt",
+                   "scrypt._builtin.ScryptEngine.bmix/_bmix_1/smix/run", "scrypt.validate",
+                   "crypto.digest.compile_hmac/pbkdf1/pbkdf2_hmac"],
+        bounds="DES: all 64-bit keys/blocks, all 24-bit salts per double round; loop glue rounds 1,2,3,25. Salsa20/8 and MD4 "
+               "compression: all inputs. MD4 framing: every length 0..%d x 7-9 update() splits. Blowfish encipher: all l, r, P, S. "
+               "scrypt: BlockMix r=1..3, ROMix N<=%d r<=2, all block contents. HMAC: key lengths around each block size; PBKDF1 "
+               "rounds 1..4" % (lens[-1], 8 if tier == "quick" else 16),
+        stubs=["struct pack/unpack -> endian-exact model over symbolic bytes", "hashlib digests -> uninterpreted functions (HMAC, "
+               "PBKDF1)", "Salsa20/8 -> uninterpreted function inside BlockMix/ROMix", "Blowfish encipher -> uninterpreted function "
+               "inside the key-schedule obligations", "MD4 compression -> recorder inside the framing obligations"],
+        assumptions=["reference models are transcriptions of FIPS 46-3, RFC 1320, the Salsa20 spec, Schneier's Blowfish, RFC 7914, "
+                     "RFC 2104, RFC 2898; each is validated on published vectors at the start of its obligation"],
+        outside=["SASLprep (Unicode tables, C-level normalisation)", "unrolled Blowfish key expansion as a whole and a whole "
+                 "bcrypt run at real cost (only their step functions)", "scrypt for N > 16", "hashlib's own digests"],
+        explanation="Each primitive's real code is executed on symbolic words/bytes and z3 decides equality with a transcription of "
+                    "its standard for all inputs (per-round / per-step lemmas where a whole run is out of reach; the loop glue is "
+                    "checked by token-level execution of the real loop).",
+        extra_cov={"programs": len(obs), "disagreements_checked": sum(1 for r in results if r["status"] == "violation")},
+        technique="E1 shadow execution + z3 equivalence with standard reference models (per-round lemmas)")
